@@ -2,26 +2,26 @@
 //! the proptest tier: the harness sources are included by path (engine, generators' PRNG, the
 //! reference oracles and props/c08.rs), so there is one implementation of every oracle.
 //!
-//! The paths below are absolute on purpose (one `sed s,/tmp/agents/D,/verif,` relocates the package).
+//! The paths below are absolute on purpose (one `sed s,/verif,/verif,` relocates the package).
 #![allow(dead_code, clippy::type_complexity, clippy::too_many_arguments)]
 
-#[path = "/tmp/agents/D/harness/src/engine/mod.rs"]
+#[path = "/verif/harness/src/engine/mod.rs"]
 pub mod engine;
 
 pub mod r#gen {
-    #[path = "/tmp/agents/D/harness/src/gen/payload.rs"]
+    #[path = "/verif/harness/src/gen/payload.rs"]
     pub mod payload;
 }
 
 pub mod oracle {
-    #[path = "/tmp/agents/D/harness/src/oracle/varint_ref.rs"]
+    #[path = "/verif/harness/src/oracle/varint_ref.rs"]
     pub mod varint_ref;
-    #[path = "/tmp/agents/D/harness/src/oracle/rans_ref.rs"]
+    #[path = "/verif/harness/src/oracle/rans_ref.rs"]
     pub mod rans_ref;
 }
 
 pub mod props {
-    #[path = "/tmp/agents/D/harness/src/props/c08.rs"]
+    #[path = "/verif/harness/src/props/c08.rs"]
     pub mod c08;
 }
 
@@ -32,8 +32,8 @@ use std::sync::OnceLock;
 /// Default location of the known-findings list (same file as the proptest tier); override with
 /// `NV_KNOWN_FINDINGS`. Extra tolerated panic sites for the decode-arbitrary target (one signature
 /// per line, `#` comments) come from `NV_FUZZ_ALLOW` (default: `<this package>/allow_panics.txt`).
-const DEFAULT_KNOWN: &str = "/tmp/agents/D/KNOWN_FINDINGS.txt";
-const DEFAULT_ALLOW: &str = "/tmp/agents/D/fuzz/allow_panics.txt";
+const DEFAULT_KNOWN: &str = "/verif/KNOWN_FINDINGS.txt";
+const DEFAULT_ALLOW: &str = "/verif/fuzz/allow_panics.txt";
 
 fn known_sigs() -> &'static BTreeSet<String> {
     static K: OnceLock<BTreeSet<String>> = OnceLock::new();
